@@ -166,7 +166,8 @@ func (o *scalarOperator) loadSeries(ctx context.Context) error {
 	for i := range vectorSeries {
 		if vectorSeries[i] != nil {
 			lbls := vectorSeries[i]
-			if !o.opType.IsComparisonOperator() {
+			// A comparison keeps the metric name unless it returns 0/1 (bool modifier).
+			if !o.opType.IsComparisonOperator() || o.returnBool {
 				lbls, _ = function.DropMetricName(lbls.Copy())
 			}
 			series[i] = lbls
